@@ -36,6 +36,15 @@ class Gen:
 
     # ---- values
     def coord(self, axis=None):
+        v = self._coord(axis)
+        key = ("coord", axis)
+        if key in self.recent and self.rng.random() < 0.12:
+            return self.recent[key]      # the same coordinate again (after whatever happened in between)
+        if v not in ("nan", "inf", "-inf", "huge", "-huge"):
+            self.recent[key] = v
+        return v
+
+    def _coord(self, axis=None):
         r = self.rng
         if r.random() < self.malformed * 0.5:
             return r.choice(["nan", "inf", "-inf", "huge", "-huge"])
@@ -241,19 +250,23 @@ def run_impl(lines: list[str]):
         dp = int(lines[0].split("=")[1])
         lines = lines[1:]
     im = Impl(dp)
+    im.dp0 = dp
     out_lines, recs = [], []
     im.src_lines = []            # the harness-side line behind every executed line (same length as the result)
+    im.step_dp = []              # decimal places in force when each executed line wrote its output
     for ln in lines:
         if ln.startswith("trace "):
             for l2, rec in im.apply_trace(ln):
                 out_lines.append(l2)
                 recs.append(rec)
                 im.src_lines.append(l2)
+                im.step_dp.append(im.dp)
             continue
         l2, rec = im.apply(ln)
         out_lines.append(l2)
         recs.append(rec)
         im.src_lines.append(ln)
+        im.step_dp.append(im.dp)
     # leave no context manager open
     while im.ctx:
         im.ctx.pop().__exit__(None, None, None)
@@ -265,13 +278,20 @@ def run_model(histories: list[list[str]]) -> list[list[str]]:
     for h in histories:
         flat.append("reset")
         # `huge` (an int beyond the double range) is, in the model's vocabulary, a value that is no finite number
-        flat.extend(ln.replace("huge", "inf") if "huge" in ln else ln for ln in h)
+        # `fmtdp` is harness-only: the model does not render text, so the line is not sent (its record is None)
+        flat.extend(ln.replace("huge", "inf") if "huge" in ln else ln for ln in h if not ln.startswith("fmtdp "))
     out = core.run_model("builder", flat)
     res, i = [], 0
     for h in histories:
         i += 1
-        res.append(out[i : i + len(h)])
-        i += len(h)
+        recs = []
+        for ln in h:
+            if ln.startswith("fmtdp "):
+                recs.append(None)
+            else:
+                recs.append(out[i])
+                i += 1
+        res.append(recs)
     return res
 
 
@@ -323,30 +343,36 @@ def correspond(R: core.Run, histories: list[list[str]], keys, exact: bool, label
     for h in histories:
         lines, recs, im = run_impl(h)
         done.append((lines, recs))
-        dps.append(im.dp)
+        dps.append((im.dp0, im.step_dp))
         badout = [(i, r) for i, r in enumerate(recs) if "!BAD(" in r]
         if badout:
             i, r = badout[0]
-            R.fail({"history": ([f"cfg dp={im.dp}"] if im.dp != 5 else []) + lines[: i + 1]},
+            R.fail({"history": ([f"cfg dp={im.dp0}"] if im.dp0 != 5 else []) + lines[: i + 1]},
                    f"`{lines[i]}` wrote a line that is not a sequence of address words: {parse_record(r)['stmts']}", tag="malformed-output", step=i)
             continue
         if oracle:
             for step, msg, tag in oracle(lines, recs, im) or []:
-                R.fail({"history": lines[: step + 1]}, msg, tag=tag, step=step)
+                R.fail({"history": ([f"cfg dp={im.dp0}"] if im.dp0 != 5 else []) + lines[: step + 1]}, msg, tag=tag, step=step)
     keep = [k for k, d in enumerate(done) if not any("!BAD(" in r for r in d[1])]
     done = [done[k] for k in keep]
     dps = [dps[k] for k in keep]
     model = run_model([l for l, _ in done])
-    for (lines, recs), mrecs, dp in zip(done, model, dps):
+    for (lines, recs), mrecs, (dp0, step_dp) in zip(done, model, dps):
         nt = nontrivial(lines, recs) if nontrivial else (sum(1 for r in recs if "stmts=-" not in r) >= 2)
         R.case({"history": lines, "last_record": recs[-1] if recs else ""}, nontrivial=nt)
         R.count(label)
         for ln, rec in zip(lines, recs):
             R.count("op:" + ln.split()[0], "out:" + rec.split(" ", 1)[0][4:])
+        lowest = dp0
         for i, (ir, mr) in enumerate(zip(recs, mrecs)):
-            bad = diff(ir, mr, keys, exact and dp >= 5, dp)
+            dp = step_dp[i]
+            lowest = min(lowest, dp)
+            if mr is None:      # harness-only line (formatter precision): must not have written anything
+                bad = [] if "stmts=- " in ir + " " and ir.startswith("out=ok") else ["stmts"]
+            else:
+                bad = diff(ir, mr, keys, exact and lowest >= 5, dp)
             if bad:
-                R.disagree(f"builder[{','.join(bad)}]", {"history": ([f"cfg dp={dp}"] if dp != 5 else []) + lines[: i + 1]},
+                R.disagree(f"builder[{','.join(bad)}]", {"history": ([f"cfg dp={dp0}"] if dp0 != 5 else []) + lines[: i + 1]},
                            {k: parse_record(ir).get(k) for k in bad}, {k: parse_record(mr).get(k) for k in bad}, step=i)
                 break
     return done
@@ -364,7 +390,10 @@ def replay(data, keys, oracle=None) -> int:
     mrecs = run_model([lines])[0]
     bad = 0
     for i, (ln, ir, mr) in enumerate(zip(lines, recs, mrecs)):
-        d = diff(ir, mr, keys, True)
+        if mr is None:
+            print(f"[{i}] {ln}   (harness-only line)")
+            continue
+        d = diff(ir, mr, keys, im.dp0 >= 5 and min(im.step_dp[: i + 1]) >= 5, im.step_dp[i])
         print(f"[{i}] {ln}\n     impl : {ir}\n     model: {mr}" + (f"\n     DIFF {d}" if d else ""))
         bad += bool(d)
     if oracle:
